@@ -28,6 +28,18 @@ Theorem C05_accept_sound :
     content_check cx m = VOk.
 Proof. exact accepted_sound. Qed.
 
+(* The content / prefetch clause of C05_accept_sound spelled out ("commits to its content"): a candidate passes content()
+   only if it is presented with exactly the account blocks its content names - as many distinct blocks (by identifier:
+   the Go map) as the content has headers, every header names a presented block, and the per-address linking scan is ok.
+   A momentum presented with a surplus block (or lacking one) is not accepted. *)
+Theorem C05_accepted_content_exact :
+  forall cx m, content_check cx m = VOk ->
+  Z.of_nat (length (mo_content m)) <= MaxAccountBlocksInMomentum /\
+  distinct_ids (cx_prefetched cx) [] = Z.of_nat (length (mo_content m)) /\
+  Forall (fun h => exists b, lookup_pb (cx_prefetched cx) (h_hash h) (h_height h) = Some b) (mo_content m) /\
+  content_scan (cx_prefetched cx) (cx_acct cx) [] (mo_content m) = VOk.
+Proof. exact content_exact. Qed.
+
 (* ... in particular a valid momentum signed by anybody but the elected pillar is never accepted *)
 Theorem C05_wrong_producer_rejected :
   forall (perm : Z -> nat -> list nat) (nc rc : nat) (bt genesis : Z) (delegs_at : Z -> list deleg) cx m a,
@@ -98,6 +110,11 @@ Proof. vm_compute. reflexivity. Qed.
 Definition ex_chain : list msum := [mkM 11 1 1000; mkM 12 2 1010].
 Definition ex_ctx : vctx := mkCtx 100 ex_chain 5000 [] [] (XOk 77) 13 true.
 Definition ex_mom : mom := mkMom 1 100 13 12 3 1020 0 77 32 64 3 [].
+(* the same momentum presented with an account block its (empty) content does not name is refused *)
+Example C05_surplus_block_refused :
+  apply_momentum id_perm 5 2 10 1000 (fun _ => ex_delegs)
+    (mkCtx 100 ex_chain 5000 [mkPB 7 99 1 0 false] [] (XOk 77) 13 true) ex_mom = VContentMismatch.
+Proof. vm_compute. reflexivity. Qed.
 Example C05_accept_example :
   accepted id_perm 5 2 10 1000 (fun _ => ex_delegs) ex_ctx ex_mom = true.
 Proof. vm_compute. reflexivity. Qed.
